@@ -8,6 +8,7 @@
 import Proofs.Events
 import Proofs.EventsAutomaton
 import Proofs.EventsViews
+import Proofs.EventsReentrant
 import SpyneModel.Generated.Facts14
 namespace SpyneModel.Props.C14
 open SpyneModel.Events SpyneModel.Generated
@@ -121,6 +122,21 @@ theorem readd_after_removal_appends_at_end {ν : Type} [DecidableEq ν] (m : Mgr
     ((m.delListener e h).addListener e h).fire e = (m.fire e).filter (fun x => x != h) ++ [h] := by
   simp [Mgr.fire, Mgr.addListener, Mgr.delListener, osetDiscard, osetAdd]
 
+/-! ### listeners that register / unregister listeners of the event while it fires -/
+
+/-- Whatever the listeners add to or remove from the handler set during a firing (each at its first call): a
+    listener that was registered before the firing and that nobody removes during it is called exactly once. -/
+theorem reentrant_listener_called_once (prog : H → List ROp) (fuel : Nat) (s : List H) (h : H) (hs : s.Nodup)
+    (hh : h ∈ s) (hnd : ∀ k, ROp.del h ∉ prog k) (hterm : (fireReentrant prog fuel s).next = none) :
+    (fireReentrant prog fuel s).calls.count h = 1 :=
+  reentrant_called_once prog fuel s h hs hh hnd hterm
+
+/-- the walk of the model and the real EventManager agree on the witness scenarios that pin the semantics
+    down (measured on /repo on every run) -/
+theorem reentrant_semantics_measured :
+    facts14.reentrantCalls = reentrantScenarios.map (fun sc => (fireReentrant (progOf sc.2) 50 sc.1).calls) := by
+  decide
+
 /-- one firing calls the reached listeners in order — application's manager, then the managers given to
     @rpc, then the service class's — and stops after the first one that raises; if none raises it calls
     every one of them -/
@@ -147,14 +163,20 @@ theorem automaton_sound (t : List Sym) (u r f : Bool) (h : final t = .done u r f
 /-- the whole table, evaluated by the kernel on the facts measured on /repo -/
 theorem trace_spec_table : allRows.all (rowOk facts14) = true := by decide +kernel
 
+/-- Application.process_request fires the same events whatever the method declares to return: nothing,
+    one value, several values, a bare output message -/
+theorem proc_events_same_for_every_signature (sg : Sig) (pc : ProcCase) :
+    facts14.proc sg pc = facts14.proc .single pc := by
+  cases sg <;> cases pc <;> (try rename_i k; cases k) <;> rfl
+
 /-- a call leaves the transport with an exception exactly when the return value cannot be serialised
     and the transport is the bare ServerBase call sequence; the WSGI transport never lets one escape -/
 theorem escapes_exactly (c : Cfg) (inj : Inj) (co ro : Option ExcKind) :
     (run facts14 c inj co ro).escaped = ((truth inj co ro).serFail && c.transport == .serverBase) :=
-  (run_row facts14 trace_spec_table c inj co ro).1
+  (run_row facts14 trace_spec_table proc_events_same_for_every_signature c inj co ro).1
 
-theorem wsgi_never_escapes (o : OutProto) (sh : Shape) (inj : Inj) (co ro : Option ExcKind) :
-    (run facts14 ⟨o, .wsgi, sh⟩ inj co ro).escaped = false := by
+theorem wsgi_never_escapes (o : OutProto) (sh : Shape) (sg : Sig) (inj : Inj) (co ro : Option ExcKind) :
+    (run facts14 ⟨o, .wsgi, sh, sg⟩ inj co ro).escaped = false := by
   rw [escapes_exactly]; simp
 
 /-- the trace is accepted, in the state that records what really happened -/
@@ -162,7 +184,7 @@ theorem trace_spec (c : Cfg) (inj : Inj) (co ro : Option ExcKind)
     (h : (run facts14 c inj co ro).escaped = false) :
     final (methodView (run facts14 c inj co ro).steps)
       = .done (truth inj co ro).userRan (truth inj co ro).returned (truth inj co ro).faulted :=
-  ((run_row facts14 trace_spec_table c inj co ro).2.2 h).1
+  ((run_row facts14 trace_spec_table proc_events_same_for_every_signature c inj co ro).2.2 h).1
 
 /-- method_context_created first, method_context_closed last, each exactly once -/
 theorem created_first_closed_last_once (c : Cfg) (inj : Inj) (co ro : Option ExcKind)
@@ -236,7 +258,7 @@ theorem document_and_string_events_follow (c : Cfg) (inj : Inj) (co ro : Option 
 theorem created_closed_application_level_only (c : Cfg) (inj : Inj) (co ro : Option ExcKind) :
     Event.created ∉ descEvents (run facts14 c inj co ro).steps ∧
     Event.closed ∉ descEvents (run facts14 c inj co ro).steps := by
-  have := (run_row facts14 trace_spec_table c inj co ro).2.1
+  have := (run_row facts14 trace_spec_table proc_events_same_for_every_signature c inj co ro).2.1
   simpa [descScopeOk] using this
 
 /-- transport level (WSGI): wsgi_call, then wsgi_return or wsgi_exception according to the outcome,
@@ -244,7 +266,7 @@ theorem created_closed_application_level_only (c : Cfg) (inj : Inj) (co ro : Opt
 theorem transport_events (c : Cfg) (inj : Inj) (co ro : Option ExcKind)
     (h : (run facts14 c inj co ro).escaped = false) :
     transportOk c.transport (run facts14 c inj co ro).steps (truth inj co ro).faulted = true :=
-  ((run_row facts14 trace_spec_table c inj co ro).2.2 h).2
+  ((run_row facts14 trace_spec_table proc_events_same_for_every_signature c inj co ro).2.2 h).2
 
 /-! ### lifting to worlds: arbitrary listeners registered on every manager -/
 
@@ -325,6 +347,10 @@ theorem decorator_keywords_reach_descriptor (sp : Spelling) (ms : List (Mgr Even
     descriptorManagers facts14 sp ms = ms := by
   cases sp <;> rfl
 
+/-- the service class given to `@mrpc(_service_class=S)` is heard like the service class of an @rpc method -/
+theorem mrpc_service_class_manager_reaches_descriptor (svc : Mgr Event) :
+    descriptorService facts14 true svc = svc := rfl
+
 /-! ### non-vacuity -/
 
 -- a registration history with duplicates, two events
@@ -336,17 +362,20 @@ example : (Mgr.empty.applyAll [Op.add 1 7, .add 1 8, .del 1 7, .add 1 7, .del 1 
 example : (Mgr.empty.applyAll [Op.add 1 7, .add 1 8, .clear 1, .add 1 8]).fire 1 = [8] := by decide
 -- a method without a return value over HttpRpc: the output protocol leaves out_string None, all events still fire
 example : facts14.leavesNone .httpRpc .void = true := by decide
-example : methodView (run facts14 ⟨.httpRpc, .wsgi, .void⟩ ⟨.none, .fault, false⟩ none none).steps
+example : methodView (run facts14 ⟨.httpRpc, .wsgi, .void, .void⟩ ⟨.none, .fault, false⟩ none none).steps
     = [.ev .created, .ev .call, .user, .ev .returnObject, .ev .returnDocument, .ev .returnString, .ev .closed] := by decide
 -- A registered, E fired, B registered, E fired again, A removed, E fired
 example : Mgr.empty.runHistory [Op.add 1 7, .fire 1, .add 1 8, .fire 1, .del 1 7, .fire 1, .fire 2] = [[7], [7, 8], [8], []] := by decide
+-- a one-shot listener and a listener that installs its successor: everybody registered before still runs once
+example : (fireReentrant (progOf [(1, [.del 1]), (2, [.add 4])]) 20 [1, 2, 3]).calls = [1, 2, 3, 4] := by decide
+example : (fireReentrant (progOf [(1, [.del 1]), (2, [.add 4])]) 20 [1, 2, 3]).next = none := by decide
 -- the table is not empty, the automaton accepts seven traces
 example : allRows.length = 1728 := by decide +kernel
 example : (lang 9 .start).length = 7 := by decide +kernel
 -- runs that do not escape exist for every kind of failure; one that escapes exists
-example : (run facts14 ⟨.soap11, .wsgi, .value⟩ ⟨.serialize, .exc, true⟩ none none).escaped = false := by decide
-example : (run facts14 ⟨.soap11, .serverBase, .value⟩ ⟨.serialize, .exc, true⟩ none none).escaped = true := by decide
-example : methodView (run facts14 ⟨.json, .wsgi, .value⟩ ⟨.none, .fault, false⟩ none (some .exc)).steps
+example : (run facts14 ⟨.soap11, .wsgi, .value, .single⟩ ⟨.serialize, .exc, true⟩ none none).escaped = false := by decide
+example : (run facts14 ⟨.soap11, .serverBase, .value, .single⟩ ⟨.serialize, .exc, true⟩ none none).escaped = true := by decide
+example : methodView (run facts14 ⟨.json, .wsgi, .value, .single⟩ ⟨.none, .fault, false⟩ none (some .exc)).steps
     = [.ev .created, .ev .call, .user, .ev .returnObject, .ev .exceptionObject, .ev .exceptionDocument,
        .ev .exceptionString, .ev .closed] := by decide
 -- a world that satisfies the hypotheses of `first_app_listener_sees_spec`, with a raising listener
@@ -361,8 +390,8 @@ def exampleWorld : World where
 example : callOutcome exampleWorld = some .exc := by decide
 example : (∀ ev, ∃ rest, exampleWorld.app ev = 0 :: rest ∧ 0 ∉ rest) ∧ (∀ ev, exampleWorld.raises 0 ev = none) :=
   ⟨fun _ => ⟨[4], rfl, by decide⟩, fun ev => by simp [exampleWorld]⟩
-example : viewOf (.meth 0) 6 (trace facts14 ⟨.xml, .wsgi, .value⟩ ⟨.none, .fault, false⟩ exampleWorld) = [.call] := by decide
-example : viewOf .svc 7 (trace facts14 ⟨.xml, .wsgi, .value⟩ ⟨.none, .fault, false⟩ exampleWorld)
+example : viewOf (.meth 0) 6 (trace facts14 ⟨.xml, .wsgi, .value, .single⟩ ⟨.none, .fault, false⟩ exampleWorld) = [.call] := by decide
+example : viewOf .svc 7 (trace facts14 ⟨.xml, .wsgi, .value, .single⟩ ⟨.none, .fault, false⟩ exampleWorld)
     = [.exceptionObject, .exceptionDocument, .exceptionString] := by decide
 
 end SpyneModel.Props.C14
